@@ -105,7 +105,8 @@ func declSrc(f *ast.File, name string) string {
 //   - banman: key layout constants, default masks, the expiry is stored as Unix seconds of an absolute time, Status
 //     deletes when !now.Before(expiry), the key is built from the To4 / To16 normal form;
 //   - neutrino.go: OnVersion bans + disconnects under the WITNESS|CF test, handleAddPeerMsg and outboundPeerConnected
-//     consult IsBanned before accepting, IsBanned / BanPeer go through ParseIPNet(addr, nil) and the store, BanDuration.
+//     consult IsBanned before accepting, IsBanned / BanPeer go through ParseIPNet(addr, nil) and the store, BanDuration; BanPeer disconnects the reported
+//     address and every connected peer whose address parses to the banned network.
 func extractBan() {
 	l := newLean("Ban")
 	defer l.write()
@@ -304,6 +305,10 @@ func extractBan() {
 			"BanPeer = banStore.BanIPNet(ParseIPNet(addr, nil), reason, BanDuration)")
 		put("banPeerDisconnects", strings.Contains(body, "deferfunc(){") && strings.Contains(body, "ifsp:=s.PeerByAddr(addr);sp!=nil{sp.Disconnect()}"),
 			"BanPeer's deferred function disconnects PeerByAddr(addr)")
+		put("banPeerDisconnectsNetwork", strings.Contains(body, "deferfunc(){") &&
+			strings.Contains(body, "banned,err:=banman.ParseIPNet(addr,nil)iferr!=nil{return}") &&
+			strings.Contains(body, "for_,sp:=ranges.Peers(){peerNet,err:=banman.ParseIPNet(sp.Addr(),nil)iferr!=nil{continue}ifpeerNet.String()==banned.String(){sp.Disconnect()}}"),
+			"and then every peer of s.Peers() whose address parses to the banned network (ParseIPNet(sp.Addr(), nil).String() == ParseIPNet(addr, nil).String())")
 	}
 	// BanPeer call sites outside neutrino.go and their reasons
 	var sites []string
